@@ -149,5 +149,11 @@ Definition runnable_stage (s : rstage) : Prop :=
    the iterations, ordered by start time, see the stages' parameters in stage
    order (up to the tolerated number of stragglers that a worker had already
    taken when its stage stopped); every stage was seen. *)
+(* What the harness observes of the trigger built through the public builder from a file
+   whose stage-start lies in the (real) past: the trigger's total duration is the sum of
+   the durations of ALL configured stages, and at least the last stage is kept. *)
+Definition c15_trigger_ok (durs : list Z) (total kept : Z) : bool :=
+  (total =? zsum durs) && (1 <=? kept) && (kept <=? Z.of_nat (length durs)).
+
 Definition c15_run_ok (left anomalies tolerated stages_seen stages : Z) : bool :=
   (left =? 0) && (anomalies <=? tolerated) && (stages_seen =? stages).
